@@ -1167,7 +1167,7 @@ func buildConn(r *rng, sc *sessionCase, kinds []string, nonce *uint32, blocks fu
 		case "late":
 			*nonce++
 			rp := pc.reply(nonceReply(*nonce), crc)
-			// well inside the receive timeout (150 ms) even on a loaded machine
+			// well inside the receive timeout (300 ms) even on a heavily loaded machine
 			rs = append(rs, reaction{pieces: []piece{{data: rp[:32], delay: 4000000}, {data: rp[32:], delay: 3000000}}})
 		case "toolate": // the complete reply arrives only after the receive timeout has passed: on a connection the client has given up
 			*nonce++
@@ -1418,7 +1418,7 @@ func tcpSession(r *rng) sessionCase {
 	sc := baseSession(r)
 	sc.mode = "tcp"
 	sc.sec, sc.nsec = tcpSec, tcpNsec
-	sc.rt, sc.st, sc.ct = 150000000, 500000000, 500000000
+	sc.rt, sc.st, sc.ct = 300000000, 1000000000, 1000000000
 	return sc
 }
 
